@@ -50,6 +50,10 @@ GF == [
   rd  |-> [kind |-> "vmap", callee |-> "d1", n |-> 2, bcast |-> TRUE],
   fr  |-> [kind |-> "fn", sites |-> << Site("r", "rd", Arg), Site("y", "d0", <<"sum", Val("r")>>) >>,
            ret |-> <<"sum", Val("r")>>],
+  \* a Vmap called with a KEYWORD argument (shared by all lanes, as Scan shares keyword arguments between iterations)
+  rk  |-> [kind |-> "vmap", callee |-> "bF", n |-> 2, bcast |-> TRUE, kwarg |-> TRUE],
+  frk |-> [kind |-> "fn", sites |-> << Site("a", "d1", Arg), SiteKw("r", "rk", Val("a")), Site("y", "d0", <<"sum", Val("r")>>) >>,
+           ret |-> <<"sum", Val("r")>>],
   \* scan: step(carry, x) = z ~ d0(carry + x); returns (z, z + 1)
   st  |-> [kind |-> "fn", sites |-> << Site("z", "d0", Add(<<"fst", Arg>>, <<"snd", Arg>>)) >>,
            ret |-> <<"pair", Val("z"), Add(Val("z"), Cn(1))>>],
